@@ -52,7 +52,7 @@ MANIFEST = dict(
                 "models of CPython int()/str.split/bytes.strip/re.match on the one anchored expression and glibc "
                 "inet_aton (each with its own correspondence stream); the two tool grammars in Spec/Routes.lean. "
                 "Windows `route PRINT` parsing is outside. Line skipping holds for the repaired code "
-                "(proposed_fixes/C17-skip-junk.diff); tables whose ROUTES message exceeds 65535 bytes are a recorded "
+                "(fix commit 2f593f0); tables whose ROUTES message exceeds 65535 bytes are a recorded "
                 "known finding."),
     technique="Lean 4 proof (bit-level lemmas, grammar-to-tuple theorems) + differential correspondence with the real server/client code + ipaddress oracle",
 )
